@@ -967,7 +967,17 @@ JITTER_TM = {
     "fill_bytes": ("∀ st n, Ext.JitterRng.fill_bytes st n = Jitter.fill n st", ["C12", "C05", "C16"],
                    "intro st n\n  exact Jitter.TM.fill_tie Ext.JitterRng.next_u32 JitterRng.next_u32 Ext.JitterRng.next_u64 JitterRng.next_u64 st n"),
 }
-CUSTOM_PROOFS = {}
+CUSTOM_PROOFS = {
+    # XorShiftRng: definitional unfolding first; then — for a source that inlines next_u64_via_u32 as two next_u32 calls and
+    # combines the halves in either order — rewrite with the already proved sibling theorems and the projection form of the model
+    "XorShiftRng.next_u64": ("first\n  | bounded 100 => ext_tie_step Ext.XorShiftRng.next_u64\n"
+                             "  | (funext st\n     simp only [Ext.XorShiftRng.next_u64, XorShiftRng.next_u32]\n"
+                             "     show _ = nextU64ViaU32 XorShift.nextU32 st\n"
+                             "     first | (rw [nextU64ViaU32_eq]; done) | (rw [nextU64ViaU32_eq, BitVec.or_comm]))"),
+    "XorShiftRng.fill_bytes": ("first\n  | bounded 100 => ext_tie_fill Ext.XorShiftRng.fill_bytes\n"
+                               "  | (intro st n\n     simp only [Ext.XorShiftRng.fill_bytes, XorShiftRng.next_u32, XorShiftRng.next_u64]\n"
+                               "     first | done | bounded 100 => rfl)"),
+}
 
 def jitter_theorems(u, done):
     th = []
